@@ -11,6 +11,7 @@ func init() {
 			"R-SCOPE: component arguments are evaluated in the caller's scope and bound through Set in a fresh enclosed scope in which the block is evaluated",
 			"R-ERRDROP / R-NILFIELD on evalComponentStmt, evalSlotStmt and the loader functions: binding errors are returned; Block, Argument and slot Body are nil-tested",
 			"R-DELIM: @component(...) and @slot bodies must be closed",
+			"R-SLOTGAP: wherever the component-use parser steps over a text token on its way to a @slot, the step is the body of a loop on that very test (a comment splits a run of text into two tokens)",
 			"R-PATHAPI: the file of a component name is <template dir>/<name><extension>, whatever the name looks like",
 		},
 		Decided:     "TODO",
@@ -19,6 +20,7 @@ func init() {
 		Run: func(m *Model, s *Sink) {
 			m.RunOwn(s, "R-OWN")
 			m.RunScope(s, "R-SCOPE")
+			m.RunSlotGap(s, "R-SLOTGAP")
 			m.RunPathAPI(s, "R-PATHAPI") // a component name is looked up as the file dir/name+ext
 			var fns []*ssa.Function
 			for _, n := range []string{"evalComponentStmt", "evalSlotStmt"} {
